@@ -523,7 +523,45 @@ func checkCtorSkeleton(c *Ctx, r *Rec, info *types.Info, fd *ast.FuncDecl, kind 
 			return true
 		})
 	}
+	// a helper that is handed the collection being built and applies the parsed items to it
+	helperOp, helperName := "", ""
+	for _, st := range sourceArm.Body {
+		ast.Inspect(st, func(y ast.Node) bool {
+			call, ok := y.(*ast.CallExpr)
+			if !ok || resultObj == nil {
+				return true
+			}
+			cf := calleeOf(info, call)
+			if cf == nil || cf.Exported() {
+				return true
+			}
+			hd := c.declOf(cf.Origin())
+			if hd == nil || hd.Body == nil {
+				return true
+			}
+			hinfo := c.infoFor(hd)
+			hp := paramObjs(hinfo, hd)
+			for ai, a := range call.Args {
+				if ai >= len(hp) || !isObj(info, a, resultObj) {
+					continue
+				}
+				for _, l := range loopsIn(hd.Body) {
+					inspectNoLit(l, func(z ast.Node) bool {
+						if rx, mname, _, ok := methodCall(z); ok && isObj(hinfo, rx, hp[ai]) && (strings.HasSuffix(mname, "Value") || strings.HasSuffix(mname, "Values")) && (strings.HasPrefix(mname, "Add") || strings.HasPrefix(mname, "Append") || strings.HasPrefix(mname, "Set") || strings.HasPrefix(mname, "Insert")) {
+							helperOp, helperName = mname, cf.Name()
+						}
+						return true
+					})
+				}
+			}
+			return true
+		})
+	}
 	switch {
+	case helperOp != "":
+		if !direct[helperOp] {
+			bad = fmt.Sprintf("the parsed items are applied one by one with %s (in the helper %s), which for a %s does not yield the order the parser builds (the parser hands the sequence to MakeFromSequence; %s(\"[1, 2, 3](%s)\") comes out as [3 2 1])", helperOp, helperName, kind, kind, kind)
+		}
 	case !parses:
 		bad = "skip: the source branch does not call ParseSource itself"
 	case loop == nil:
